@@ -661,6 +661,12 @@ def p_sort(ex, path, x, **kw):
             nm = "sorted(" + ",".join(str(p.sym[0]) for p in ([x] if x.sym is not None else x.parts)) + ")"
         new = mk_array(ex, path, "sorted", n, ascending=True, floats=True, exact_name=nm)
         A, N = new.sym
+        if "cnt" not in x.facts and x.ndim == 1 and x.mask is None:
+            # an unnamed derived array (e.g. a mask selection): name it so that "sorting preserves the counts" can be stated
+            xn = name_tensor(ex, path, x)
+            Ax, Nx = xn.sym
+            x.facts["cnt"] = lambda v_, strict_, Ax=Ax, Nx=Nx: (cnt_lt if strict_ else cnt_le)(Ax, Nx, toR(v_))
+            x.counted_as = (Ax, Nx)
         if "cnt" in x.facts:
             v = Real("v!srt")
             path.add(ForAll([v], cnt_lt(A, N, v) == x.facts["cnt"](v, True), patterns=[cnt_lt(A, N, v)]))
